@@ -639,7 +639,7 @@ def _run(ctx, ok, log, icp, reg, ALGS, ENCS, unknown_enc):
         return first
 
     # ---------------- histories with the real generator -----------------
-    N = ctx.scale(200, 10000)
+    N = ctx.scale(200, int(os.environ.get("VERIF_C18_N", "10000")))      # VERIF_C18_N: smoke-test override of the thorough size
     sers = ["compact", "flat", "general"]
     hist = []
     for i, alg in enumerate(ALGS):
@@ -674,7 +674,7 @@ def _run(ctx, ok, log, icp, reg, ALGS, ENCS, unknown_enc):
         for a_i, alg in enumerate(ALGS):
             full.add(a_i * len(ENCS) + (a_i % len(ENCS)))
     for i, cfg in enumerate(hist):
-        n = N if i in full else 1000
+        n = N if i in full else min(N, 1000)
         # configurations that fail (ECDH-1PU key wrapping with a non-CBC enc) are histories of failing calls
         expect_fail = any(r.alg.startswith("ECDH-1PU+") for r in cfg.rcps) and not cfg.enc.endswith(("HS256", "HS384", "HS512"))
         if expect_fail:
@@ -834,7 +834,7 @@ def _run(ctx, ok, log, icp, reg, ALGS, ENCS, unknown_enc):
                      "impl": {"err": err, "draws": shape, "emitted": em}})
         dist["keygen_cases"] += 1
 
-    M = ctx.scale(200, 10000)
+    M = ctx.scale(200, int(os.environ.get("VERIF_C18_N", "10000")))
     for bits in (128, 192, 256, 384, 512, 64, 8, 1024):
         gen_case("oct", bits, True, M if bits >= 64 else 3)
     for bits in (0, 1, 7, 9, 12, 100, 255, 257, -8, -1, -16, 2047, 4096, 65536):
